@@ -353,4 +353,198 @@ theorem relocPrep_spec (s : State) (B : BitVec 64) (acc acc1 : RelocAcc) (re : R
             · simp only [hv2] at hok
               cases hok
 
+/-! ### one iteration, then the fold -/
+
+theorem relocFinish_ne (acc : RelocAcc) (re : Reloc) (v : BitVec 64) : relocFinish acc re v ≠ .error .ok := by
+  unfold relocFinish; split <;> simp
+theorem evalExpr_ne (s : State) (e : Nat × Nat) : evalExpr s e ≠ .error .ok := by
+  unfold evalExpr; split <;> simp
+theorem relocPrep_ne (s : State) (B : BitVec 64) (acc : RelocAcc) (re : Reloc) (src : Section) : relocPrep s B acc re src ≠ .error .ok := by
+  unfold relocPrep relocTable
+  dsimp only
+  repeat' split
+  all_goals first
+    | (simp; done)
+    | (intro e; cases e; exact absurd ‹_› (evalExpr_ne _ _))
+theorem relocStep_ne (s : State) (B : BitVec 64) (acc : RelocAcc) (re : Reloc) : relocStep s B acc re ≠ .error .ok := by
+  unfold relocStep
+  split
+  · simp
+  · split
+    · simp
+    · split
+      · simp
+      · cases h : relocPrep s B acc re _ with
+        | ok pr => exact relocFinish_ne _ _ _
+        | error e =>
+          dsimp only
+          intro hx
+          cases hx
+          exact relocPrep_ne _ _ _ _ _ h
+
+
+theorem secOffset_of_map {a b : List Section} (h : ∀ j : Nat, (b[j]?).map Section.offset = (a[j]?).map Section.offset) (j : Nat) :
+    secOffset b j = secOffset a j := by
+  have := h j
+  unfold secOffset
+  cases ha : a[j]? <;> cases hb : b[j]? <;> rw [ha, hb] at this <;> simp at this
+  · simp [this]
+
+theorem relocValue_offs (s : State) (B : BitVec 64) {a b : List Section} (re : Reloc)
+    (h : ∀ j : Nat, (b[j]?).map Section.offset = (a[j]?).map Section.offset) : relocValue s B b re = relocValue s B a re := by
+  have hso := secOffset_of_map h
+  unfold relocValue
+  rw [hso re.srcSec]
+  have htgt : (re.tgtSec.bind (fun t => b[t]?)).map (fun tgt => re.payload + (B + tgt.offset)) =
+      (re.tgtSec.bind (fun t => a[t]?)).map (fun tgt => re.payload + (B + tgt.offset)) := by
+    cases re.tgtSec with
+    | none => rfl
+    | some t =>
+      simp only [Option.bind_some]
+      have := h t
+      cases ha : a[t]? <;> cases hb : b[t]? <;> rw [ha, hb] at this <;> simp at this
+      · simp [this]
+  have hev : ∀ e, evalExpr { s with secs := b } e = evalExpr { s with secs := a } e := by
+    intro e
+    unfold evalExpr
+    simp only [hso]
+  rw [htgt]
+  cases re.type <;> simp only []
+  cases s.exprs[re.payload.toNat]? with
+  | none => rfl
+  | some e => simp only [hev]
+
+/-- what `relocate_to_base` has done to one entry -/
+def EntryDone (s : State) (B : BitVec 64) (secs0 secsF : List Section) (re : Reloc) : Prop :=
+  re.type = .none ∨
+  (∃ v, relocValue s B secs0 re = some v ∧ RDecodes secsF re.rgn v) ∨
+  (re.type = .x64AddressEntry ∧ relocValue s B secs0 re = none ∧
+    ∃ v ats slot, s.addrTabSec = some ats ∧ isInt32 v = true ∧
+      v = secOffset secs0 ats + BitVec.ofNat 64 (slot * s.arch.regSize) -
+            (secOffset secs0 re.srcSec + BitVec.ofNat 64 re.srcOff + BitVec.ofNat 64 re.regionSize) ∧
+      RDecodes secsF re.rgn v)
+
+theorem relocStep_spec (s : State) (B : BitVec 64) (acc acc' : RelocAcc) (re : Reloc)
+    (hin : RInB acc.secs re.rgn) (hz : RZero acc.secs re.rgn) (hat : s.addrTabSec ≠ some re.srcSec)
+    (hok : relocStep s B acc re = .ok acc') :
+    Touch acc.secs acc'.secs re.rgn s.addrTabSec ∧ EntryDone s B acc.secs acc'.secs re := by
+  unfold relocStep at hok
+  by_cases hn : re.type = .none
+  · simp only [hn, if_true] at hok
+    cases hok
+    exact ⟨Touch.refl _ _ _, .inl hn⟩
+  · simp only [hn, if_false] at hok
+    obtain ⟨src, hsrc, hb1, hb2, hpos, hfmt, htab⟩ := hin
+    replace hsrc : acc.secs[re.srcSec]? = some src := hsrc
+    rw [hsrc] at hok
+    dsimp only at hok
+    split at hok
+    · cases hok
+    · cases hp : relocPrep s B acc re src with
+      | error e => rw [hp] at hok; cases hok
+      | ok pr =>
+        obtain ⟨acc1, v⟩ := pr
+        rw [hp] at hok
+        dsimp only at hok
+        have hin0 : RInB acc.secs re.rgn := ⟨src, hsrc, hb1, hb2, hpos, hfmt, htab⟩
+        obtain ⟨T1, hfld, hcase⟩ := relocPrep_spec s B acc acc1 re src v hsrc hin0 hat hp
+        -- the entry's own region / value word in acc1
+        have hin1 : RInB acc1.secs re.rgn := by
+          obtain ⟨s1, e1, _, k1⟩ := T1.2 _ src hsrc
+          obtain ⟨hl, _⟩ := k1 hat
+          exact ⟨s1, e1, by rw [hl]; exact hb1, hb2, hpos, hfmt, htab⟩
+        have hz1 : RZero acc1.secs re.rgn := by
+          obtain ⟨old, ho, hc⟩ := hz
+          exact ⟨old, by rw [hfld]; exact ho, hc⟩
+        obtain ⟨T2, _, _, hown⟩ := relocFinish_spec acc1 acc' re v s.addrTabSec hin1 hok
+        refine ⟨T1.trans T2, ?_⟩
+        have hso := relocValue_src s B acc.secs re src hsrc
+        rcases hcase with ⟨_, hv⟩ | ⟨hty, hvn, ats, slot, nb, hats, hi, hveq, _⟩
+        · exact .inr (.inl ⟨v, hv, hown hz1⟩)
+        · exact .inr (.inr ⟨hty, hvn, v, ats, slot, hats, hi, by rw [hso]; exact hveq, hown hz1⟩)
+
+theorem DRG_val_of_DRR {secs : List Section} {a b : Rgn} (hb : RInB secs b) (h : DRR a b) : DRG a b.val := by
+  obtain ⟨_, _, _, h3, _⟩ := hb
+  unfold DRG DRR at *
+  show a.sec ≠ b.sec ∨ a.off + a.size ≤ b.off + b.fmt.valueOffset ∨ b.off + b.fmt.valueOffset + b.fmt.valueSize ≤ a.off
+  omega
+
+theorem rinb_touch {a b : List Section} {rg r : Rgn} {ats : Option Nat} (h : Touch a b rg ats) (hat : ats ≠ some r.sec)
+    (hr : RInB a r) : RInB b r := by
+  obtain ⟨sec, hs, h1, h2, h3, h4, h5⟩ := hr
+  obtain ⟨s', e, _, k⟩ := h.2 _ sec hs
+  obtain ⟨hl, _⟩ := k hat
+  exact ⟨s', e, by rw [hl]; exact h1, h2, h3, h4, h5⟩
+
+/-- the whole fold: offsets are preserved, bytes outside every processed region (and outside the address table) are
+preserved, and every entry has been relocated -/
+theorem relocLoop_spec (s : State) (B : BitVec 64) : ∀ (rs : List Reloc) (acc accF : RelocAcc),
+    (rs.map Reloc.rgn).Pairwise DRR →
+    (∀ re ∈ rs, RInB acc.secs re.rgn ∧ RZero acc.secs re.rgn ∧ s.addrTabSec ≠ some re.srcSec) →
+    relocLoop s B rs acc = (accF, .ok) →
+    (∀ j : Nat, (accF.secs[j]?).map Section.offset = (acc.secs[j]?).map Section.offset) ∧
+    (∀ g : GRef, s.addrTabSec ≠ some g.sec → InB acc.secs g → (∀ re ∈ rs, DRG re.rgn g) →
+        field accF.secs g = field acc.secs g ∧ InB accF.secs g) ∧
+    (∀ re ∈ rs, EntryDone s B acc.secs accF.secs re) := by
+  intro rs
+  induction rs with
+  | nil =>
+    intro acc accF _ _ hok
+    simp only [relocLoop, Prod.mk.injEq] at hok
+    obtain ⟨e, _⟩ := hok; subst e
+    exact ⟨fun _ => rfl, fun g _ hb _ => ⟨rfl, hb⟩, fun _ h => by cases h⟩
+  | cons re rest ih =>
+    intro acc accF hpw hall hok
+    simp only [List.map_cons, List.pairwise_cons] at hpw
+    obtain ⟨h0in, h0z, h0at⟩ := hall re List.mem_cons_self
+    simp only [relocLoop] at hok
+    cases hst : relocStep s B acc re with
+    | error e =>
+      rw [hst] at hok
+      dsimp only at hok
+      have := (Prod.mk.inj hok).2
+      subst this
+      exact absurd hst (relocStep_ne _ _ _ _)
+    | ok acc1 =>
+      rw [hst] at hok
+      dsimp only at hok
+      obtain ⟨T, hdone0⟩ := relocStep_spec s B acc acc1 re h0in h0z h0at hst
+      have hoffs1 : ∀ j : Nat, (acc1.secs[j]?).map Section.offset = (acc.secs[j]?).map Section.offset := getOffset_touch T
+      -- the remaining entries still satisfy the preconditions in acc1
+      have hall1 : ∀ r ∈ rest, RInB acc1.secs r.rgn ∧ RZero acc1.secs r.rgn ∧ s.addrTabSec ≠ some r.srcSec := by
+        intro r hr
+        obtain ⟨ri, rz, rat⟩ := hall r (List.mem_cons_of_mem _ hr)
+        have hd : DRR re.rgn r.rgn := hpw.1 r.rgn (List.mem_map_of_mem hr)
+        have hfl := field_touch T r.rgn.val rat (DRG_val_of_DRR ri hd) ri.val
+        obtain ⟨old, ho, hc⟩ := rz
+        exact ⟨rinb_touch T rat ri, ⟨old, by rw [hfl.1]; exact ho, hc⟩, rat⟩
+      obtain ⟨hoffsF, hframeF, hdoneF⟩ := ih acc1 accF hpw.2 hall1 hok
+      refine ⟨fun j => (hoffsF j).trans (hoffs1 j), ?_, ?_⟩
+      · intro g hgat hgb hgd
+        have h1 := field_touch T g hgat (hgd re List.mem_cons_self) hgb
+        have h2 := hframeF g hgat h1.2 (fun r hr => hgd r (List.mem_cons_of_mem _ hr))
+        exact ⟨h2.1.trans h1.1, h2.2⟩
+      · intro r hr
+        simp only [List.mem_cons] at hr
+        rcases hr with rfl | hr
+        · -- the first entry: done in acc1, untouched afterwards
+          have hkeep := hframeF r.rgn.val h0at (rinb_touch T h0at h0in).val
+            (fun r' hr' => DRG_val_of_DRR h0in (by
+              have := hpw.1 r'.rgn (List.mem_map_of_mem hr')
+              unfold DRR at *; omega))
+          have hdec : ∀ v, RDecodes acc1.secs r.rgn v → RDecodes accF.secs r.rgn v := by
+            intro v ⟨new, hn, hd⟩
+            exact ⟨new, by rw [hkeep.1]; exact hn, hd⟩
+          rcases hdone0 with h | ⟨v, hv, hd⟩ | ⟨hty, hvn, v, ats, slot, h1, h2, h3, hd⟩
+          · exact .inl h
+          · exact .inr (.inl ⟨v, hv, hdec v hd⟩)
+          · exact .inr (.inr ⟨hty, hvn, v, ats, slot, h1, h2, h3, hdec v hd⟩)
+        · -- a later entry: the induction hypothesis, with values computed from the same offsets
+          have hso := secOffset_of_map hoffs1
+          rcases hdoneF r hr with h | ⟨v, hv, hd⟩ | ⟨hty, hvn, v, ats, slot, h1, h2, h3, hd⟩
+          · exact .inl h
+          · exact .inr (.inl ⟨v, by rw [← relocValue_offs s B r hoffs1]; exact hv, hd⟩)
+          · exact .inr (.inr ⟨hty, by rw [← relocValue_offs s B r hoffs1]; exact hvn, v, ats, slot, h1, h2,
+              by rw [← hso ats, ← hso r.srcSec]; exact h3, hd⟩)
+
 end AsmjitVerif.CodeHolder
